@@ -38,7 +38,7 @@ var opNames = []string{"GetStats", "GetAvailable", "DropPeer", "GetPeer", "GetPe
 	"Kill", "tor.Server", "tor.Client", "tor.Announce", "Reader.Read", "Reader.ReadBlocked", "Reader.Close", "tor.Expire",
 	"HTTP front page", "HTTP ?q=peers", "HTTP ?q=delete", "HTTP ?q=set-torrent", "HTTP file GET"}
 
-var stopNames = []string{"already-dead", "queued-behind-goaway", "ahead-of-goaway", "ctx-cancel", "queue-full", "queue-full-ctx-cancel", "burst"}
+var stopNames = []string{"already-dead", "queued-behind-goaway", "ahead-of-goaway", "ctx-cancel", "queue-full", "queue-full-ctx-cancel", "burst", "after-timed-out-kill"}
 
 type world struct {
 	x       *sim.Tor
@@ -435,6 +435,25 @@ func oneCase(rt *rapid.T, opName, stop string) (fail string, labels []string) {
 		chatter()
 		start()
 		go func() { killed <- t.Kill(context.Background()) }()
+	case "after-timed-out-kill":
+		// somebody gave up on a deletion that could not even be queued (the
+		// queue was full for longer than they were prepared to wait); the next
+		// request to delete the torrent must work all the same
+		ch := hold()
+		for len(t.Event) < cap(t.Event) {
+			t.Event <- peer.TorAnnounce{}
+		}
+		kctx, kc := context.WithTimeout(context.Background(), time.Second)
+		err := t.Kill(kctx)
+		kc()
+		if err == nil {
+			return "Kill returned nil although the torrent's loop was stalled with a full queue and the caller gave up after 1 s", nil
+		}
+		start()
+		sim.Settle()
+		go func() { killed <- t.Kill(context.Background()) }()
+		sim.Settle()
+		release(ch)
 	}
 	if chatty && len(w.remotes) > 0 && stop != "already-dead" {
 		labels = append(labels, "messages-in-flight-to-peers-at-stop")
